@@ -16,7 +16,7 @@ RULE = ('E1 enumeration: (a) a dedicated deck family aimed at the interleavings 
         'flagged surfaces that are unused or de-duplicated away, a material in atom / mass fractions used at '
         'a mass / atom density - x 2^2 inlining flags x --max-inline-score in '
         '{default, 0, 1e9} x --skip-deduplication x --skip-compositions / --skip-geomcomp / '
-        '--skip-boundary-conditions; (b) the states of the generators of C01, C05, C10, C06, C07, C09, C13, C15, C16 '
+        '--skip-boundary-conditions; (b) the states of the generators of C01 (incl. the decks of up to 130 cells and the N-gon prisms), C05, C10, C06, C07, C09, C13, C15, C16 '
         '(reduced bounds), passed through the structural report only; oracle: independent reader - every id '
         'defined once, every reference resolved, every count equal to the items that follow, no surface on '
         'both sides of a volume, every numeric field finite, GEOMCOMP partitions the non-virtual volumes, '
@@ -108,7 +108,7 @@ def b_interleave(ch):
     return st
 
 
-OTHERS = [('c10', 'two-materials', None), ('c10', 'forms', 3), ('c01', 'p2-mixed-k2', 0), ('c01', 'chain', 2), ('c05', 'trees', 2), ('c06', 'shapes', 2),
+OTHERS = [('c01', 'slabs', None), ('c01', 'polygon', None), ('c10', 'two-materials', None), ('c10', 'forms', 3), ('c01', 'p2-mixed-k2', 0), ('c01', 'chain', 2), ('c05', 'trees', 2), ('c06', 'shapes', 2),
           ('c06', 'arrays-2d', 0), ('c07', 'hex', 2), ('c09', 'level0', 2), ('c09', 'like', None),
           ('c13', 'stress', None), ('c15', 'like1', 3), ('c15', 'like2', 2), ('c16', 'flags', 1)]
 
